@@ -402,6 +402,9 @@ func (vc *VC) mergeIn(ins []edgePayload, hint string, target *ssa.BasicBlock) (*
 }
 
 func valEqual(a, b Val) bool {
+	if (a.av == nil) != (b.av == nil) || (a.av != nil && *a.av != *b.av) {
+		return false
+	}
 	if a.t != b.t || len(a.tup) != len(b.tup) || (a.ip == nil) != (b.ip == nil) {
 		return false
 	}
@@ -686,9 +689,8 @@ func (fr *frame) execInstr(ins ssa.Instruction, st *State, env map[ssa.Value]Val
 		v := op(x.X)
 		at := x.Type().(*types.Pointer).Elem().Underlying().(*types.Array)
 		safety("slice-to-array", x.X.Name(), x.Pos(), fmt.Sprintf("(>= (slen %s) %d)", v.t, at.Len()))
-		// pointer to the same backing store only when offset is 0; otherwise fresh copy semantics are not modelled
-		vc.unsupported["slice to array pointer at "+vc.pos(x.Pos())] = true
-		env[x] = Val{t: "(sref " + v.t + ")"}
+		es := reg.sortOf(at.Elem())
+		env[x] = Val{t: "(sref " + v.t + ")", av: &arrView{slice: v.t, n: at.Len(), es: es}}
 	case *ssa.MakeInterface:
 		v := op(x.X)
 		env[x] = Val{t: fr.makeIface(x.X.Type(), v)}
@@ -814,6 +816,11 @@ func (fr *frame) loadThrough(st *State, p Val, et types.Type, alive string) Val 
 	vc := fr.vc
 	reg := vc.eng.types
 	et = types.Unalias(et)
+	if p.av != nil {
+		fnm := fmt.Sprintf("arr%d!%s", p.av.n, sanitize(p.av.es))
+		vc.declareRaw(fnm, fmt.Sprintf("(declare-fun %s ((Array Int %s) Int) (Array Int %s))", fnm, p.av.es, p.av.es))
+		return Val{t: fmt.Sprintf("(%s %s (soff %s))", fnm, vc.sliceContent(st, p.av.slice, p.av.es), p.av.slice)}
+	}
 	if p.ip != nil {
 		t := vc.readLoc(st, p.ip)
 		vc.assumeType(alive, t, et, st.alloc)
